@@ -9,30 +9,49 @@ from .hirflow import HirIndex, calls_in
 
 JSX_EXPR_VARIANTS = {"JSXMember", "JSXNamespacedName", "JSXEmpty", "JSXElement", "JSXFragment"}
 
-# Reviewed exceptions of R07.1, keyed (function, variant): one line of reason each.
-R071_REVIEWED = {
-    ("VueJsxTransformVisitor::<C>::transform_attrs", "JSXEmpty"):
-        "built only from JSXAttrValue::JSXExprContainer(JSXExpr::JSXEmptyExpr): the SWC parser rejects `attr={}` "
-        "(\"JSX attributes must only be assigned a non-empty expression\"), so this arm is dead for every parseable module",
-}
+# Reviewed exception of R07.1, structural: an `Expr::JSXEmpty` built in the arm of a match on a JSXAttrValue whose pattern is
+# JSXExprContainer(JSXExpr::JSXEmptyExpr(..)) — wherever that match lives.
+R071_DEAD_ARM = ("built only from JSXAttrValue::JSXExprContainer(JSXExpr::JSXEmptyExpr): the SWC parser rejects `attr={}` "
+                 "(\"JSX attributes must only be assigned a non-empty expression\"), so this arm is dead for every parseable module")
+
+
+def _dead_arm_sites(F):
+    """{function path: number of Expr::JSXEmpty constructions inside an `attr={}` arm}"""
+    out = {}
+    for b in F.hir:
+        for m in walk(b["body"]):
+            if m.get("k") != "Match":
+                continue
+            for arm in m["arms"]:
+                pats = list(walk(arm["pat"]))
+                if any(x.get("adt") == AST + "JSXAttrValue" and x.get("variant") == "JSXExprContainer" for x in pats) \
+                        and any(x.get("adt") == AST + "JSXExpr" and x.get("variant") == "JSXEmptyExpr" for x in pats):
+                    n = sum(1 for x in walk(arm["body"]) if x.get("k") in ("Ctor", "Struct") and x.get("adt") == AST + "Expr" and x.get("variant") == "JSXEmpty")
+                    if n:
+                        out[b["path"]] = out.get(b["path"], 0) + n
+    return out
 
 
 def r07_1(ctx):
     r = Rule("R07.1", "no Expr::JSX* value is constructed by the transform (MIR aggregates + conversions, HIR cross-check)",
              "a constructed JSX node stays in the output AST")
     F = ctx.facts
+    dead = _dead_arm_sites(F)
     for b in F.mir:
         r.saw(b["path"])
         root = b["parent"] if b["dk"] == "Closure" else b["path"]
         for blk in b["blocks"]:
+            if blk.get("inlined_from") and (b["crate"], blk["inlined_from"]) in F.mir_by_path:
+                continue    # a copy of a helper whose own body is still listed (it could not be folded into the HIR view): counted there
             for s in blk["stmts"]:
                 if s["k"] != "assign":
                     continue
                 rv = s["rv"]
                 if rv.get("rk") == "agg" and rv.get("agg") == "adt" and rv.get("adt") == AST + "Expr" and rv.get("variant") in JSX_EXPR_VARIANTS:
                     key = "%s constructs Expr::%s" % (root, rv["variant"])
-                    reason = R071_REVIEWED.get((root, rv["variant"]))
+                    reason = R071_DEAD_ARM if (rv["variant"] == "JSXEmpty" and dead.get(root, 0) > 0) else None
                     if reason:
+                        dead[root] -= 1
                         r.ob(key, True, C.mloc(b, s), "reviewed exception: " + reason)
                     else:
                         r.ob(key, False, C.mloc(b, s), "Expr::%s is constructed here, so JSX survives into the output" % rv["variant"])
